@@ -143,7 +143,9 @@ EXITS_THOROUGH = EXITS + ('gotoret', 'rearm')
 def onerror_src(stmt, ctx, exit_, arm='top'):
     """-> source text or None when the combination makes no sense"""
     gos = ctx in ('g1', 'g2', 'g1x2', 'g1for', 'forg1')
-    if exit_ in ('gotoc', 'gotoret') and not (gos or ctx == 'subg'):
+    if exit_ in ('gotoc', 'gotoret') and not gos:
+        return None
+    if arm == 'local' and ctx not in ('sub', 'subg', 'fn'):
         return None
     L = []
     if arm in ('top', 'off0'):
@@ -186,21 +188,17 @@ def onerror_src(stmt, ctx, exit_, arm='top'):
           'fall': ['PRINT 901'],
           'rearm': ['ON ERROR GOTO h', 'PRINT 901', 'END'],
           'resn': ['RESUME NEXT']}[exit_]
-    if ctx == 'subg':
-        # handler and GOSUB target inside the SUB
-        R = ['SUB p']
-        while L[0].startswith('ON ERROR'):
-            R.append(L.pop(0))
-        R += [SETUP, 'DIM a%(3)', 'PRINT 401', 'GOSUB s1', 'PRINT 402', 'EXIT SUB',
-              's1: PRINT 201', stmt, 'PRINT 202', 's1c: PRINT 203', 'RETURN']
-        R += [x.replace('GOTO cont', 'GOTO s1c') for x in H] + ['END SUB']
-        return '\n'.join(L + R) + '\n'
     L += H
+    arm_l = ['ON ERROR GOTO h'] if arm == 'local' else []
     if ctx == 'sub':
-        L += ['SUB p', SETUP, 'DIM a%(3)', 'PRINT 401', stmt, 'PRINT 402', 'END SUB']
+        L += ['SUB p'] + arm_l + [SETUP, 'DIM a%(3)', 'PRINT 401', stmt, 'PRINT 402', 'END SUB']
+    elif ctx == 'subg':
+        # GOSUB inside a SUB; the handler has to be a module-level label
+        L += ['SUB p'] + arm_l + [SETUP, 'DIM a%(3)', 'PRINT 401', 'GOSUB s1', 'PRINT 402', 'EXIT SUB',
+                                  's1: PRINT 201', stmt, 'PRINT 202', 'RETURN', 'END SUB']
     elif ctx == 'fn':
-        L += ['FUNCTION f%', SETUP, 'DIM a%(3)', 'PRINT 401', stmt, 'PRINT 402', 'f% = 1',
-              'END FUNCTION']
+        L += ['FUNCTION f%'] + arm_l + [SETUP, 'DIM a%(3)', 'PRINT 401', stmt, 'PRINT 402', 'f% = 1',
+                                        'END FUNCTION']
     return '\n'.join(L) + '\n'
 
 
@@ -213,9 +211,9 @@ def onerror_programs(tier):
     for ctx in ctxs:
         for exit_ in exits:
             for kind, pending, stmt in sites:
-                arms = ('top',)
+                arms = ('top', 'local')
                 if exit_ == 'end':
-                    arms = ('top', 'off0', 'none')
+                    arms = ('top', 'local', 'off0', 'none')
                 for arm in arms:
                     src = onerror_src(stmt, ctx, exit_, arm)
                     if src is None or src in seen:
